@@ -17,7 +17,7 @@ from stone.ir import (
 
 ACC, REJ, UNS = 'accept', 'reject', 'unspecified'
 
-KNOWN_B64 = {'': b'', 'AP8=': b'\x00\xff', 'YWJj': b'abc'}
+KNOWN_B64 = {'': b'', 'AP8=': b'\x00\xff', 'YWJj': b'abc', 'AQEB' * 20: b'\x01' * 60}
 KNOWN_TS = {'2015-05-12T15:50:38Z', '1999-12-31T23:59:59Z'}
 TS_FORMAT = '%Y-%m-%dT%H:%M:%SZ'
 
